@@ -776,7 +776,18 @@ func (e *env) attempt(p planLine, seed int64) (outLine, string, error) {
 			return outLine{}, "", err
 		}
 		var body []byte
-		if p.Media == "json" {
+		// media "other": an unsupported media type.  Besides plainly foreign ones the family holds types that merely START
+		// with a supported type (application/json-seq, application/x-protobuf-delimited ...): still unsupported -> 415 and the
+		// consumer is not reached.  The body is a well-formed OTLP request in the encoding the name resembles, so a receiver
+		// that matched the type by prefix would decode and deliver it (seeded change C15-7).
+		otherType := ""
+		if p.Media != "json" && p.Media != "proto" {
+			fam := []string{"text/plain", "application/json-seq", "application/x-protobuf-delimited", "application/jsonl", "application/x-protobuffer",
+				"application/json-patch+json", "application/xml", "application/jsonx; charset=utf-8", "application/x-protobuf2"}
+			otherType = fam[(p.ID+int(seed))%len(fam)]
+			extra["other_content_type"] = otherType
+		}
+		if p.Media == "json" || strings.HasPrefix(otherType, "application/json") {
 			body = ops.reqJSON(payload)
 		} else {
 			body = ops.reqProto(payload)
@@ -799,7 +810,7 @@ func (e *env) attempt(p planLine, seed int64) (outLine, string, error) {
 		case "json":
 			req.Header.Set("Content-Type", "application/json")
 		default:
-			req.Header.Set("Content-Type", "text/plain")
+			req.Header.Set("Content-Type", otherType)
 		}
 		if a := authHeader(p.Auth); a != "" {
 			req.Header.Set("Authorization", a)
